@@ -35,6 +35,20 @@ WORDS = [b'a', b'1', b'if', b'else', b'.', b'[', b'(', b'{', b'+', b'=', b'try',
 WORD_WIDTH = 4
 
 
+# second token-level family: a CONTEXT (a construct that hands its recovery set down to what it encloses) followed by k
+# slots holding a word or a short phrase; the phrases open the constructs whose item loops run until a closing bracket
+CONTEXTS = [b'x :: if ', b'x :: (a: ', b'x :: a(', b'x :: a[', b'x : ', b'x :: while ', b'x :: a.{ b = ', b'x :: a.[', b'x :: switch a { b => ', b'x :: { ']
+PHRASES = [b'a', b'1', b'else', b'(', b')', b'{', b'}', b']', b'=', b';', b',', b'=>', b':', b'...', b'switch a {', b'a(', b'a.[', b'a.{ b =', b'a.(', b'(a:']
+PHRASE_WIDTH = 10
+
+
+def context_parts(k, contexts=CONTEXTS):
+    parts = []
+    for c in contexts:
+        parts += word_parts(k, words=PHRASES, prefix=c, width=PHRASE_WIDTH)
+    return parts
+
+
 def word_parts(k, words=WORDS, prefix=b'', extra=(), width=WORD_WIDTH):
     """token-level inputs: `prefix` followed by k slots of `width` bytes, each holding one dictionary word padded with
     spaces (so tokens are separated by whitespace); the first slot's word is fixed per partition, the others symbolic"""
